@@ -57,7 +57,7 @@ def be_value(E, st, zs):
             first = zs.arg(0)
             if z3.is_app(first) and first.decl().kind() == z3.Z3_OP_SEQ_UNIT:
                 rest = zs.arg(1) if zs.num_args() == 2 else z3.Concat(*[zs.arg(i) for i in range(1, zs.num_args())])
-                st.fact(t == z3.BV2Int(first.arg(0)) * ops.pow2(E, st, 8 * z3.Length(rest)) + BE(rest))
+                st.fact(t == ops.byte_int(E, st, first.arg(0)) * ops.pow2(E, st, 8 * z3.Length(rest)) + BE(rest))
                 st.fact(BE(rest) >= 0)
     if E.options.get('int_lemmas') is not None:
         # opt-in ground facts of base-256 positional notation: range by length, lower bound by a non-zero leading
@@ -139,6 +139,8 @@ def _class_test(E, st, v, c):
             return False
         if isinstance(v, ExcV):
             return isinstance(v.cls, PyClassV) and issubclass(v.cls.py, py)
+        if isinstance(v, SUnionIB):
+            raise Unsupported('class test of an unresolved int|bytes union')
         if isinstance(v, SOpaque):
             return False
         if isinstance(v, FrozenDict):
@@ -155,6 +157,11 @@ def _class_test(E, st, v, c):
 
 
 def b_isinstance(E, st, args, kw):
+    if len(args) == 2 and isinstance(args[0], SUnionIB):
+        outs = []
+        for s1, v1 in E.resolve_union(st, args[0]):
+            outs += b_isinstance(E, s1, [v1, args[1]], kw)
+        return outs
     return val(st, _class_test(E, st, args[0], args[1]))
 
 
@@ -403,7 +410,7 @@ def _bytes_from_iter(E, st, items):
             cur.fact(v == zx)               # definition of a fresh name (conservative; survives spec-clause evaluation)
             zx = v
         units.append(z3.Unit(z3.Int2BV(zx, 8)))
-        if not isinstance(x, int):
+        if not isinstance(x, int) and not E.options.get('int_bytes'):
             # ground instance of "int -> byte -> int is the identity on 0..255" (z3 is slow to find it by bit-blasting)
             cur.fact(z3.Implies(z3.And(zx >= 0, zx <= 255), z3.BV2Int(z3.Int2BV(zx, 8)) == zx))
     if all(isinstance(x, int) for x in items):
